@@ -362,10 +362,12 @@ func newRun(prop, outDir string, seed int64, nshards int, header, caseType, rule
 // add registers one case: term is the Gallina case term, input the replayable
 // input, nontrivial whether it counts for distinct_nontrivial.
 func (r *Run) add(term string, input interface{}, impl string, nontrivial bool) {
-	sh := r.next % r.nshards
-	r.next++
-	r.sum.Cases = append(r.sum.Cases, CaseRec{Shard: sh, Index: len(r.shards[sh]), Input: input, Impl: impl})
-	r.shards[sh] = append(r.shards[sh], term)
+	if r.nshards > 0 {
+		sh := r.next % r.nshards
+		r.next++
+		r.sum.Cases = append(r.sum.Cases, CaseRec{Shard: sh, Index: len(r.shards[sh]), Input: input, Impl: impl})
+		r.shards[sh] = append(r.shards[sh], term)
+	}
 	r.sum.Evaluations++
 	if nontrivial {
 		b, _ := json.Marshal(input)
